@@ -341,5 +341,29 @@ def run(ctx):
     ctx.evaluations += nsites
     # default_role => unreachable!() in from_config is a 'panic' site; make sure it was seen
     ro.check(any("|panic:" in k and k.endswith("default_role") for k in seen_keys), "seen:default_role-unreachable", "the `_ => unreachable!()` on default_role is among the obligations", "expected obligation (default_role unreachable!) not enumerated — enumeration lost coverage")
+    ro.check(sum(1 for k in seen_keys if k.endswith("|regex")) >= 2, "seen:regex", "the compilation of both routing regexes is among the obligations", "expected obligations (sharding_key_regex / shard_id_regex compiled with unwrap) not enumerated - enumeration lost coverage")
+    # validator and use must build the regex the same way: what compiles under one set of limits need not compile under another
+    def regex_recipe(b_):
+        rec = []
+        for c in b_.calls("re:^regex::"):
+            short = c.name.split("::")[-1]
+            if "RegexBuilder" in c.name or "RegexSetBuilder" in c.name:
+                if short in ("new", "build"):
+                    continue
+                rec.append((short, tuple(const_int(a) for a in c.args[1:])))
+        return tuple(sorted(rec, key=str))
+    pv = F.body(POOL_VALIDATE)
+    v_recipe = regex_recipe(pv) if pv else None
+    odd = []
+    n_regex_sites = 0
+    for n_, b_ in F.bodies.items():
+        if n_.startswith("bin:") or "::tests::" in n_ or "::test::" in n_:
+            continue
+        if b_.calls("re:^regex::regex::string::Regex::new$", "re:^regex::builders::.*::build$"):
+            n_regex_sites += 1
+            if regex_recipe(b_) != (v_recipe if "pgcat::pool::" in n_ else regex_recipe(b_)) :
+                odd.append((n_.replace("pgcat::", ""), regex_recipe(b_)))
+    ro.check(pv is not None and not odd, "regex:validator-and-use-agree", "the routing regexes are compiled in pool.rs with the same constructor and limits as in Pool::validate (%d regex construction sites in the crate)" % n_regex_sites,
+             "a routing regex is compiled with other limits than the ones Pool::validate tried it with (%s vs validate %s): a pattern that validate() accepts can fail to compile - and panic on the unwrap - when the pools are built" % (odd, v_recipe))
     ro.check(any("contract:bb8:max_size>0" in k for k in seen_keys), "seen:max_size", "bb8 max_size(pool_size) is among the obligations", "expected obligation (bb8 max_size) not enumerated — enumeration lost coverage")
     ro.check(any(k.endswith("|shard_id") and "index" in k for k in seen_keys), "seen:shard-index", "positional indexing by Address.shard is among the obligations", "expected obligation (index by Address.shard) not enumerated")
